@@ -9,6 +9,7 @@
   float, `normalized()`, and the ValueError for non-integer years/months.
 -/
 import DateutilVerif.Proofs.RDAlgebra
+import DateutilVerif.Proofs.RDGenEq
 
 namespace C16
 open RDM RDP
@@ -294,6 +295,61 @@ theorem mulInt_total (d : RD) (k : Int) :
   unfold usTotal monthTotal
   simp only []
   constructor <;> grind
+
+/-! ## `_gen` twins: the operators RE-TRANSLATED from /repo on this run (Generated/RDOps.lean)
+
+`Gen.neg / abs / addRd / subRd / addTd / mulInt / bool / eq / hashKey` are translated from `__neg__`, `__abs__`,
+`__add__` (relativedelta and timedelta operands), `__sub__`, `__mul__` (integer scalar), `__bool__`, `__eq__`,
+`__hash__`; each calls the translated keyword constructor `Gen.initKw`, which ends in the translated `_fix`. -/
+
+/-- **gen_ops_eq_model.** Every translated operator equals the hand model (and never raises). -/
+theorem gen_ops_eq_model (a b : RD) (k d s u : Int) :
+    Gen.neg a = .ok (neg a) ∧ Gen.abs a = .ok (RDM.abs a) ∧ Gen.addRd a b = .ok (add a b) ∧
+    Gen.subRd a b = .ok (sub a b) ∧ Gen.addTd a d s u = .ok (addTimedelta a d s u) ∧
+    Gen.mulInt a k = .ok (mulInt a k) ∧ Gen.bool a = .ok (RDM.bool a) ∧ Gen.eq a b = .ok (RDM.eq a b) ∧
+    Gen.hashKey a = .ok (hashKey a) :=
+  ⟨RDG.neg_eq a, RDG.abs_eq a, RDG.addRd_eq a b, RDG.subRd_eq a b, RDG.addTd_rd_eq a d s u, RDG.mulInt_eq a k,
+   RDG.bool_eq a, RDG.eq_eq a b, RDG.hashKey_eq a⟩
+
+/-- **every_op_normalised_gen.** -/
+theorem every_op_normalised_gen (a b r : RD) (k d s u : Int)
+    (h : Gen.neg a = .ok r ∨ Gen.abs a = .ok r ∨ Gen.addRd a b = .ok r ∨ Gen.subRd a b = .ok r ∨
+         Gen.addTd a d s u = .ok r ∨ Gen.mulInt a k = .ok r) : Normalised r := by
+  rw [RDG.neg_eq, RDG.abs_eq, RDG.addRd_eq, RDG.subRd_eq, RDG.addTd_rd_eq, RDG.mulInt_eq] at h
+  rcases h with h | h | h | h | h | h <;> (injection h with h; rw [← h]; exact fix_bounds _)
+
+/-- **eq_equivalence_gen / eq_hash_gen.** The translated `__eq__` is an equivalence and implies equality of the
+    translated `__hash__` tuples. -/
+theorem eq_equivalence_gen (a b c : RD) :
+    Gen.eq a a = .ok true ∧ (Gen.eq a b = .ok true → Gen.eq b a = .ok true) ∧
+    (Gen.eq a b = .ok true → Gen.eq b c = .ok true → Gen.eq a c = .ok true) := by
+  simp only [RDG.eq_eq, Except.ok.injEq]
+  exact ⟨eq_refl a, eq_symm a b, eq_trans a b c⟩
+
+theorem eq_hash_gen (a b : RD) (h : Gen.eq a b = .ok true) : Gen.hashKey a = Gen.hashKey b := by
+  rw [RDG.eq_eq] at h; injection h with h
+  rw [RDG.hashKey_eq, RDG.hashKey_eq, eq_hash a b h]
+
+theorem neg_neg_gen (d : RD) (h : Normalised d) : (Gen.neg d).bind Gen.neg = .ok d := by
+  rw [RDG.neg_eq]
+  show Gen.neg (neg d) = .ok d
+  rw [RDG.neg_eq, neg_neg d h]
+
+theorem bool_iff_no_field_gen (d : RD) :
+    Gen.bool d = .ok false ↔
+      (d.years = 0 ∧ d.months = 0 ∧ d.days = 0 ∧ d.hours = 0 ∧ d.minutes = 0 ∧ d.seconds = 0 ∧
+       d.microseconds = 0 ∧ d.leapdays = 0 ∧ d.year = none ∧ d.month = none ∧ d.day = none ∧
+       d.weekday = none ∧ d.hour = none ∧ d.minute = none ∧ d.second = none ∧ d.microsecond = none) := by
+  rw [RDG.bool_eq, Except.ok.injEq]; exact bool_iff_no_field d
+
+theorem eq_applyTo_gen (a b : RD) (ha : Normalised a) (hb : Normalised b) (h : Gen.eq a b = .ok true)
+    (x : Temporal) : Gen.addDt a x = Gen.addDt b x := by
+  rw [RDG.eq_eq] at h; injection h with h
+  rw [RDG.addDt_eq, RDG.addDt_eq]; exact eq_applyTo a b ha hb h x
+
+theorem mulInt_total_gen (d r : RD) (k : Int) (h : Gen.mulInt d k = .ok r) :
+    usTotal r = usTotal d * k ∧ monthTotal r = monthTotal d * k := by
+  rw [RDG.mulInt_eq] at h; injection h with h; rw [← h]; exact mulInt_total d k
 
 -- non-vacuity / sanity
 example : Gen.fix { seconds := -3661, microseconds := 2500000 } =
